@@ -511,7 +511,7 @@ enum Owner {
 }
 
 pub fn exec_c10(prop: &str, v: &Value) -> Report {
-    if v.get("threads").is_some() {
+    if v.get("threads").is_some() || v.get("exp").is_some() {
         return crate::rcworld::exec(prop, v);
     }
     let c: BulkCase = serde_json::from_value(v.clone()).expect("bad BulkCase");
